@@ -450,36 +450,46 @@ def entry_cases(rng, tr, broken, shapes=12):
 def run(ctx):
     ctx.rule = ('a case = geometry (rectangular with uneven spacings, optionally rotated/shifted; the shipped g1..g7; hand-built single-column '
                 'gadgets; convex 5..12-gons with 0..4 collinear extra nodes in every placement and rotation) x per-column surface elevations '
-                '(above top / at top / inside a layer / on a layer boundary / 2^-20 off a boundary / below bottom / default) x atmosphere type '
+                '(exactly 0.0 with the model top at 7 elevations so that 0.0 is the top, inside a layer, on a boundary, the bottom, above the top, below '
+                'the bottom; above top / at top / inside a layer / on a layer boundary / exactly the bottom / 2^-20 off a boundary / below bottom / default) '
+                'x atmosphere type '
                 'x operation: refine(every non-empty column subset of 2x2, 3x2, 3x3 [thorough: 4x3]; single columns, strips, L-shapes, blocks, '
                 'boundary sets, regions with holes, random subsets on larger meshes; second refinement of a refined mesh) with bisect in '
-                '{False, x, y, True} with and without bisect_edge_columns, decompose_columns, split_column at every node, refine_layers(every '
+                '{False, x, y, True} with and without bisect_edge_columns, decompose_columns, triangulate_column, split_column at every node, refine_layers(every '
                 'layer subset, factor 2..4). Distinct = distinct JSON of the case; non-trivial = the operation changed the geometry '
                 '(empty selections, split at a foreign node, edge columns without refined side are counted as trivial).')
     ctx.trusted += ['Coq 8.16.1 kernel (coqc); vm_compute only on closed finite terms; no native_compute',
                     'tools/props/c11_translate.py (ast walk of mulgrids.py, fail-closed: literal tables, the nested transition_type in a 6-construct '
-                    'expression language, decompose_column guards/tuples, the triangulation fan; the glue statements the hand model mirrors are '
+                    'expression language, decompose_column guards/tuples, the triangulation fan, split_column node lists; the glue statements the hand model mirrors are '
                     'compared textually and any difference is a refusal)',
                     'coq/C11/Comb.v: meaning of len/list(set(range)-set)/index/%/comparisons used by transition_type (validated on this run against '
                     'the function compiled from its own AST node on all side lists of 1..6-gons)',
+                    'coq/C11/Cross.v: the signed crossing number (ray in +x direction, half-open rule) as the meaning of "point lies in column"; '
+                    'coq/C11/Centroid.v rcentroid = real-number copy of Model.qcentroid (which is compared with geometry.polygon_centroid on this run)',
                     'extraction: ExtrOcamlBasic + ExtrOcamlString, OCaml 4.13.1, ocaml/main.ml; QArith for the executable geometry/volume model',
                     'tools/props/c11_oracle.py: independent shoelace / crossing-number / point-segment distance, tolerances rel 1e-9 (area, volume), '
                     '1e-7 x mesh size (sample points near edges are skipped), 1e-9 x edge length (node on edge)']
     ctx.assumptions += ['area theorems are over the real numbers (axioms of the standard library reals as listed by Print Assumptions); the difference '
                         'between real and double arithmetic is measured by the oracle (rel 1e-9), not bounded formally',
-                        'tiling (every point in exactly one new column) and inheritance of the surface are TESTED on sample points, not proved; '
-                        'proved are: signed areas add up for all reals (every table entry, every rotation, fan for any n), positive orientation '
-                        'of every child for strictly convex parents with interior centre, and the combinatorial boundary of every subdivision',
-                        'conformity across two neighbouring columns is proved per column (the boundary of a subdivision splits exactly the refined '
-                        'sides, at the mid-side node looked up by the unordered corner pair); that both neighbours see the same sidenodes dict is '
-                        'by reading and by the oracle (hanging-node and connection checks)',
+                        'tiling is PROVED for refine (any non-empty side set), split_column and the triangulation fan (any n) on strictly convex '
+                        'counter-clockwise parents (every point of the plane, crossing-number membership; the default centre = centroid meets the '
+                        'hypotheses on the centre node); for decompose_column only multiplicity conservation is unconditional, exactly-one assumes the '
+                        'new columns are positively oriented triangles / convex quadrilaterals (decompose_column_tiles_partial); non-convex parents and '
+                        'the implementation itself are covered by the oracle on sample points',
+                        'inheritance of the surface: proved for the model (every new column is created with the parent surface), tied to the code by the '
+                        'textual check of `surface=col.surface` and by comparing the surfaces of the implementation children with the model on every case',
+                        'conformity is proved per column and per shared side (both neighbours look the same unordered-pair key up in sidenodes and see the '
+                        'same sub-edges reversed); that every column next to a mid-side node is among the subdivided columns_plus_edge is by reading '
+                        'refine() and by the oracle (hanging-node and connection checks)',
                         'refine_layers/volume theorems are over Q for positive thicknesses; layers below the atmosphere layer are contiguous from the top elevation']
     ctx.stage()
     tr = translate(ctx)
     exe = None
     if tr is not None:
         ok = ctx.coq_build(props=('Props.v', 'Props2.v'), timeout=600)
+        ctx.log('coq build %s: %d theorems' % ('ok' if ok else 'FAILED', len(ctx.theorems)))
         exe = vf.build_driver(ctx)
+        ctx.log('driver %s' % ('built' if exe else 'NOT built'))
     rng = ctx.rng
     stats = {'status': collections.Counter(), 'op': collections.Counter(), 'shape': collections.Counter(), 'surface': collections.Counter(),
              'totals': collections.Counter()}
@@ -504,6 +514,8 @@ def run(ctx):
                 corr_geometry(ctx, exe, rng, 2000 if ctx.thorough else 300)
                 vcases = fam['refine-layers'] + fam['refine-exhaustive-small-rect'][::(3 if ctx.thorough else 17)]
                 corr_volume(ctx, exe, pool, vcases)
+                ctx.log('correspondence: %d cases, %d disagreements' % (sum(v.get('cases', 0) for v in ctx.corr.values()),
+                                                                        sum(v.get('n_disagreements', 0) for v in ctx.corr.values())))
             except Exception as e:
                 import traceback
                 ctx.proof_failures.append({'kind': 'harness', 'name': 'correspondence-crashed', 'detail': traceback.format_exc()[-3000:]})
@@ -529,6 +541,9 @@ def run(ctx):
         ctx.hyp_met['children_positive / refine_column_area: replaced parent strictly convex CCW with centre strictly inside'] = \
             '%d of %d replaced columns in the oracle sweep (the others have collinear nodes: polygons handed to decompose_columns)' % (
                 tot.get('parents_convex_centre_inside', 0), tot.get('parents_convex_centre_inside', 0) + tot.get('parents_other', 0))
+        ctx.hyp_met['refine_column_tiles: centre beyond the mid-lines (centre_ok)'] = \
+            '%d of %d convex replaced columns with centre inside (proved for the centroid: centroid_meets_hypotheses)' % (
+                tot.get('parents_centre_ok', 0), tot.get('parents_centre_ok', 0) + tot.get('parents_centre_not_ok', 0))
         ctx.hyp_met['transition_type_total: refined side set non-empty, strictly increasing, below nn'] = \
             '%d column cases of the refine correspondences (side sets recomputed independently from the selection)' % (
                 sum(v.get('cases', 0) for k, v in ctx.corr.items() if k.startswith('refine-children')))
